@@ -28,6 +28,9 @@ float nondet_float(void);
 #ifndef EXPORT_LOCAL
 #define EXPORT_LOCAL(x) ((void)0)
 #endif
+#ifndef PLACEMENT_NEW_HOOK
+#define PLACEMENT_NEW_HOOK(p) (p)
+#endif
 #define FRESH(p, n) __CPROVER_is_fresh((p), (n) * sizeof(*(p)))
 #define IMPLIES(a, b) (!(a) || (b))
 /* vacuity guard for assertion harnesses: built with -DCANARY_HARNESS this must FAIL */
